@@ -122,6 +122,68 @@ def programs_task(family, texts, inputs, budget=B):
     return st
 
 
+def both_stream_loops():
+    """counted loops whose body writes to standard output and then to standard error"""
+    out = []
+    for K in (2, 5, 40, 120):
+        out.append(loop_program(K).replace('흣. 흑...', '흣. 형.. 항.. 흑...'))
+        out.append('형... 항. ' + loop_program(K).replace('흣. 흑...', '형.. 항.. 흣. 흑...') + ' 형... 항..')
+    return out
+
+
+SPELLINGS = [(None, []), (0, ['-O0']), (1, ['-O1']), (2, ['-O2']), (2, ['-O', '2']), (1, ['--optimize', '1']), (2, ['--optimize=2']),
+             (2, ['AFTER', '-O2']), (0, ['AFTER', '--optimize', '0']),
+             # standard output on a (pseudo) terminal, standard error elsewhere
+             (2, ['PTY', '-O2']), (0, ['PTY', '-O0']), (None, ['PTY'])]
+
+
+def cli_task(texts):
+    """the real binary, the level given in every spelling the command line accepts (and not at all): same behaviour as -O0"""
+    import subprocess
+    from .common import HYEONG, child_setup, run_pty
+    st = Stats()
+    path = os.path.join(WORK, 'cli-opt-%d.hyeong' % os.getpid())
+    env = dict(os.environ, HYEONG_VERIF_STEPS=str(4 * B), RUST_BACKTRACE='0')
+
+    def run(opts):
+        if opts[:1] == ['PTY']:
+            rc, o, e = run_pty([HYEONG, 'run'] + opts[1:] + ['--color', 'never', path], b'ab\nc', env=env, timeout=60)
+            return rc, strip_banner(o), e
+        if opts[:1] == ['AFTER']:
+            args = [HYEONG, 'run', '--color', 'never', path] + opts[1:]
+        else:
+            args = [HYEONG, 'run'] + opts + ['--color', 'never', path]
+        try:
+            p = subprocess.run(args, input=b'ab\nc', stdout=subprocess.PIPE, stderr=subprocess.PIPE, env=env, timeout=60,
+                               preexec_fn=child_setup)
+            return p.returncode, strip_banner(p.stdout), p.stderr
+        except subprocess.TimeoutExpired:
+            return 'timeout', b'', b''
+    for text in texts:
+        with open(path, 'w', encoding='utf-8') as f:
+            f.write(text)
+        ref = run(['-O0'])
+        for lv, opts in SPELLINGS:
+            got = run(opts)
+            st.inc('runs')
+            st.inc('cases')
+            same = got == ref
+            if not same and b'[error]' in ref[2] and b'step budget' not in ref[2]:
+                # an output-encoding error: same status and diagnostic, earlier text may be withheld (C02)
+                (re_, rd), (ge, gd) = split_diag(ref[2]), split_diag(got[2])
+                same = (got[0] == ref[0] and first_line(gd) == first_line(rd) and (ref[1] or b'').startswith(got[1] or b'')
+                        and re_.startswith(ge))
+            if b'step budget' in ref[2] or b'step budget' in got[2]:
+                same = True         # only terminating programs are in this family; a cut run says nothing here
+            if not same:
+                st.violate(Violation('C02', 'optdiff', 'cli:%s' % (' '.join(opts) or 'no-flag'),
+                                     {'kind': 'cli', 'prog': text, 'opts': opts},
+                                     'status %r out %r err %r' % (ref[0], (ref[1] or b'')[-120:], ref[2][-120:]),
+                                     'status %r out %r err %r' % (got[0], (got[1] or b'')[-120:], got[2][-120:])))
+        st.inc('programs')
+    return st
+
+
 def bodies(alphabet, maxlen):
     for n in range(0, maxlen + 1):
         for t in itertools.product(alphabet, repeat=n):
@@ -385,6 +447,8 @@ def run_c02(tier):
             tasks.append(('curated:' + name, [text], c))
     order = {'budget': 0, 'mixed': 1, 'curated': 2}
     tasks.sort(key=lambda t: order.get(t[0].split(':')[0], 5))
+    cli = both_stream_loops() + [t for t in sp if True] + mixed_family()[::6] + fam_highstack()[::5]
+    collect(st, pmap(cli_task, [(c,) for c in chunks(cli, 6)]))
     collect(st, pmap(programs_task, tasks))
     cov = {
         'states': st.n.get('programs', 0),
@@ -399,7 +463,8 @@ def run_c02(tier):
                   'renumbering': {'alphabets': [S24, F12], 'programs': len(ren)},
                   'renumbering_3_high_stacks': {'alphabet': S3, 'programs': len(ren3)},
                   'bailout_programs': len(bailout_family()), 'budget_programs': len(budget_family(tier)),
-                  'mixed_programs': len(mixed_family()), 'labelflow_programs': len(lf), 'size_ladder_programs': len(sp), 'curated_programs': len(cur), 'curated_inputs': len(cin),
+                  'mixed_programs': len(mixed_family()), 'labelflow_programs': len(lf), 'size_ladder_programs': len(sp), 'programs_through_the_command_line_in_every_level_spelling': len(cli),
+                  'level_spellings': [' '.join(o) or '(no flag)' for _, o in SPELLINGS], 'curated_programs': len(cur), 'curated_inputs': len(cin),
                   'step_budget': {'budget/mixed/curated families': B, 'other families': 400}, 'inconclusive_after_8x_budget': st.n.get('inconclusive', 0)},
         'distinct_outcomes': {'level0_endings': sorted(st.sets.get('kinds', ())),
                               'distinct_level0_outputs': len(st.sets.get('outputs', ()))},
@@ -409,6 +474,12 @@ def run_c02(tier):
 
 
 def replay(case):
+    if case.get('kind') == 'cli':
+        st = cli_task([case['prog']])
+        for v in st.violations:
+            if v.case['opts'] == case['opts']:
+                return v.expected, v.observed
+        return 'same', 'same'
     sh = shim()
     path = os.path.join(WORK, 'replay-opt-%d.hyeong' % os.getpid())
     with open(path, 'w', encoding='utf-8') as f:
